@@ -219,39 +219,16 @@ structure Counters where
   limitErr : Bool := false
   deriving Repr, DecidableEq
 
-/-- Result of processing one sample: `false` = the loop breaks with a fatal error. -/
-def stepSample {σ} (S : Store σ) (P : Params) (defT : Int) (s : LoopSt σ) (k : Counters) (x : Sample) :
-    LoopSt σ × Counters × Bool :=
-  let k := { k with total := k.total + 1 }
-  let parsedTs : Option Int := if P.honorTs then x.ts else none
-  let t := parsedTs.getD defT
-  let (c, isDropped) := s.c.getDropped x.key
-  let s := { s with c := c }
-  if isDropped then (s, k, true) else
-  let (c, hit) := s.c.get x.key
-  let s := { s with c := c }
-  let lset := match hit with
-    | some (id, _) => (s.c.ce id).lset
-    | none => P.mutate x.labels
-  if hit.isNone && lset.isEmpty then ({ s with c := s.c.addDropped x.key }, k, true) else
-  if hit.isNone && !P.check lset then (s, k, false) else
-  let ref := match hit with
-    | some (id, _) => (s.c.ce id).ref
-    | none => 0
-  let already := match hit with
-    | some (_, a) => a
-    | none => false
-  let track := parsedTs.isNone || P.trackTs
-  -- the append itself
-  let (s, r) : LoopSt σ × Except AppErr Nat :=
-    if already && parsedTs.isNone then (s, .error .dup) else limitedAppend S P s ref lset t x.bits
+/-- The cache/counter bookkeeping after the `Append` of one sample (no storage access):
+    `updateRef`, `trackStaleness`, `checkAddError`, `addRef`, `seriesAdded`, `added`. -/
+def afterAppend (P : Params) (c : Cache) (k : Counters) (key : String) (lset : Labels) (track : Bool)
+    (hit : Option (Nat × Bool)) (r : Except AppErr Nat) : Cache × Counters :=
   -- v1: `if err == nil { updateRef; trackStaleness }`; v2: updateRef inside, then the same tracking
-  let s := match r, hit with
+  let c := match r, hit with
     | .ok ref', some (id, _) =>
-      let c := if ref' != 0 then s.c.updateRef id ref' else s.c
-      let c := if track && (c.ce id).ref != 0 then c.trackStaleness (c.ce id).ref id else c
-      { s with c := c }
-    | _, _ => s
+      let c := if ref' != 0 then c.updateRef id ref' else c
+      if track && (c.ce id).ref != 0 then c.trackStaleness (c.ce id).ref id else c
+    | _, _ => c
   -- checkAddError
   let k := match r with
     | .error .limit => { k with limitErr := true }
@@ -260,20 +237,50 @@ def stepSample {σ} (S : Store σ) (P : Params) (defT : Int) (s : LoopSt σ) (k 
     | .ok _ => true
     | .error _ => false
   -- new series: addRef (+ trackStaleness)
-  let (s, k) := match r, hit with
+  let (c, k) := match r, hit with
     | .ok ref', none =>
-      let (c, id) := s.c.addRef x.key ref' lset
+      let (c, id) := c.addRef key ref' lset
       let c := if ref' != 0 && track then c.trackStaleness ref' id else c
-      ({ s with c := c }, if k.limitErr then k else { k with seriesAdded := k.seriesAdded + 1 })
-    | _, _ => (s, k)
+      (c, if k.limitErr then k else { k with seriesAdded := k.seriesAdded + 1 })
+    | _, _ => (c, k)
   -- v2 tracks once more after addRef (`ce != nil && ce.ref != 0 && shouldTrack && sampleAdded`)
-  let s := if P.v2 && sampleAdded then
+  let c := if P.v2 && sampleAdded then
       match hit with
-      | some (id, _) =>
-        if track && (s.c.ce id).ref != 0 then { s with c := s.c.trackStaleness (s.c.ce id).ref id } else s
-      | none => s
-    else s
-  (s, { k with added := k.added + 1 }, true)
+      | some (id, _) => if track && (c.ce id).ref != 0 then c.trackStaleness (c.ce id).ref id else c
+      | none => c
+    else c
+  (c, { k with added := k.added + 1 })
+
+/-- timestamp of a sample: the explicit one if timestamps are honoured, else the scrape time -/
+def Params.tsOf (P : Params) (defT : Int) (x : Sample) : Int :=
+  (if P.honorTs then x.ts else none).getD defT
+
+/-- Result of processing one sample: `false` = the loop breaks with a fatal error. -/
+def stepSample {σ} (S : Store σ) (P : Params) (defT : Int) (s : LoopSt σ) (k : Counters) (x : Sample) :
+    LoopSt σ × Counters × Bool :=
+  let k := { k with total := k.total + 1 }
+  let parsedTs : Option Int := if P.honorTs then x.ts else none
+  let d := s.c.getDropped x.key
+  if d.2 then ({ s with c := d.1 }, k, true) else
+  let g := d.1.get x.key
+  let lset := match g.2 with
+    | some (id, _) => (g.1.ce id).lset
+    | none => P.mutate x.labels
+  if g.2.isNone && lset.isEmpty then ({ s with c := g.1.addDropped x.key }, k, true) else
+  if g.2.isNone && !P.check lset then ({ s with c := g.1 }, k, false) else
+  let ref := match g.2 with
+    | some (id, _) => (g.1.ce id).ref
+    | none => 0
+  let already := match g.2 with
+    | some (_, a) => a
+    | none => false
+  let track := parsedTs.isNone || P.trackTs
+  -- the append itself
+  let r : LoopSt σ × Except AppErr Nat :=
+    if already && parsedTs.isNone then ({ s with c := g.1 }, .error .dup)
+    else limitedAppend S P { s with c := g.1 } ref lset (P.tsOf defT x) x.bits
+  let ck := afterAppend P r.1.c k x.key lset track g.2 r.2
+  ({ r.1 with c := ck.1 }, ck.2, true)
 
 /-- The body loop: `true` = reached EOF, `false` = broke with a fatal error (parse error, missing
     name, invalid labels, label limit). -/
@@ -337,17 +344,19 @@ def reportNames : List String :=
 /-- cache key of a report series (`name + "\xff"` in Go: cannot collide with a parsed series) -/
 def reportKey (n : String) : String := n ++ "ÿ"
 
-/-- `addReportSample` (errors `ooo`/`dup` are swallowed; the storage produces no others). -/
+def reportRefLset (P : Params) (g : Cache × Option (Nat × Bool)) (name : String) : Nat × Labels :=
+  match g.2 with
+  | some (id, _) => ((g.1.ce id).ref, (g.1.ce id).lset)
+  | none => (0, P.reportLabels name)
+
 def addReportSample {σ} (S : Store σ) (P : Params) (s : LoopSt σ) (name : String) (t : Int) (bits : Nat)
     (val : Option Nat) : LoopSt σ :=
-  let (c, hit) := s.c.get (reportKey name)
-  let s := { s with c := c }
-  let (ref, lset) := match hit with
-    | some (id, _) => ((s.c.ce id).ref, (s.c.ce id).lset)
-    | none => (0, P.reportLabels name)
-  match baseAppend S s ref lset t bits val with
-  | (s, .ok ref') => if hit.isNone then { s with c := (s.c.addRef (reportKey name) ref' lset).1 } else s
-  | (s, .error _) => s
+  let g := s.c.get (reportKey name)
+  let rl := reportRefLset P g name
+  let r := baseAppend S { s with c := g.1 } rl.1 rl.2 t bits val
+  match r.2 with
+  | .ok ref' => if g.2.isNone then { r.1 with c := (r.1.c.addRef (reportKey name) ref' rl.2).1 } else r.1
+  | .error _ => r.1
 
 /-- bit pattern of `float64(n)` for the small counts that occur (exact up to 2^53) -/
 def natToF64Bits (n : Nat) : Nat :=
@@ -379,15 +388,22 @@ inductive Scrape where
   | body (items : List Item)
   deriving Repr
 
+/-- the body handed to `append` (`nil` when the scrape failed) -/
+def Scrape.items : Scrape → List Item
+  | .err => []
+  | .body items => items
+
+/-- `up`: the scrape itself succeeded (the append is checked separately) -/
+def Scrape.isBody : Scrape → Bool
+  | .err => false
+  | .body _ => true
+
 def rollbackSt {σ} (S : Store σ) (s : LoopSt σ) : LoopSt σ :=
   { s with st := S.rollback s.st, evs := Ev.rollback :: s.evs, i := 0 }
 
 /-- `scrapeAndReport(last, appendTime)`: events of the cycle (in order) and the next loop state. -/
 def cycle {σ} (S : Store σ) (P : Params) (l : Loop σ) (t : Int) (sc : Scrape) : Loop σ × List Ev :=
-  let items := match sc with
-    | .err => []
-    | .body items => items
-  let a := appendBody S P t l.c l.st items
+  let a := appendBody S P t l.c l.st sc.items
   let s := a.s
   let s :=
     if a.ok then s
@@ -397,7 +413,7 @@ def cycle {σ} (S : Store σ) (P : Params) (l : Loop σ) (t : Int) (sc : Scrape)
       let b := appendBody S P t s.c s.st []
       let s' : LoopSt σ := { b.s with evs := b.s.evs ++ s.evs }
       if b.ok then s' else rollbackSt S s'
-  let up := a.ok && (match sc with | .err => false | .body _ => true)
+  let up := a.ok && sc.isBody
   let s := report S P s t up a.k
   let s := { s with st := S.commit s.st, evs := Ev.commit :: s.evs }
   ({ c := s.c, st := s.st, scraped := true }, s.evs.reverse)
